@@ -82,6 +82,7 @@ package operations
 //@   ghostset opRestores := old(opRestores) + 1
 //@   ensures [counted] opRestores == old(opRestores) + 1
 //@   property C04
+//@   at call Fetch assert [each-row-is-fetched-at-its-own-position] arg_record == headersToRestore[rangeindex + 1].Record && arg_block == headersToRestore[rangeindex + 1].Block
 //@   at call Fetch assert [position-and-destination-of-one-row] to == "" ==> exists i int :: 0 <= i && i < len(headersToRestore) && headersToRestore[i].Name == arg_to && headersToRestore[i].Record == arg_record && headersToRestore[i].Block == arg_block
 //@   property C11
 //@   at call GetWriter assert [drive-taken-under-operation-lock] mutexHeld[addr(o.diskOperationLock)]
